@@ -779,7 +779,7 @@ func c04LeanChurn(run *rt.Run, r *rt.Rand) {
 		return
 	}
 	G, iters := r.Range(3, 8), r.Range(2000, 9000)
-	mode, npids, sharedNodes := r.Intn(3), r.Range(1, 2), r.Intn(3) == 0
+	mode, npids, sharedNodes := r.Intn(3), r.Range(1, 3), r.Intn(3) == 0
 	et := eventlogger.EventType("t0")
 	desc := fmt.Sprintf("lean churn: %d goroutines x %d iterations of RegisterNode,RegisterNode,RegisterPipeline,remove(mode %d) on %d pipeline ids, shared nodes=%v", G, iters, mode, npids, sharedNodes)
 	var wg sync.WaitGroup
@@ -791,6 +791,7 @@ func c04LeanChurn(run *rt.Run, r *rt.Rand) {
 			f, s = fmt.Sprintf("lf%d", k%2), fmt.Sprintf("ls%d", k%2)
 		}
 		nodeIDs[f], nodeIDs[s] = true, true
+		// with shared nodes and three pipeline ids, pipelines with different ids list the same nodes
 		pid := eventlogger.PipelineID(fmt.Sprintf("lp%d", k%npids))
 		kr := r.Fork()
 		wg.Add(1)
